@@ -403,6 +403,26 @@ def sib_filter(ctx: Ctx) -> List[Ob]:
                     return x.targets[0].id
         raise AnalysisError(f"{f.qualname}: verdict variable (`res = call_predicate(...)`) not found")
 
+    # witness: the verdict does not come from asking the predicate about *this* node, but from a table filled by an
+    # earlier call (memoised per data_id / per key): two nodes that share the key get one answer
+    for f, lp in ((fi, li), (fc, lc)):
+        for st in lp.body:
+            for x in ast.walk(st):
+                if not (isinstance(x, ast.Assign) and isinstance(x.value, ast.Call) and len(x.targets) == 1 and isinstance(x.targets[0], ast.Name)):
+                    continue
+                cal = x.value
+                gs = [g for g, _ in ctx.env.callees(f, cal)] if norm(cal.func) != "call_predicate" else []
+                for g in gs:
+                    body = list(ast.walk(g.node))
+                    asks = any(isinstance(y, ast.Call) and norm(y.func) == "call_predicate" for y in body)
+                    table_read = any((isinstance(y, ast.Subscript) and isinstance(y.ctx, ast.Load) and isinstance(y.value, ast.Name)) or
+                                     (isinstance(y, ast.Call) and isinstance(y.func, ast.Attribute) and y.func.attr == "get" and isinstance(y.func.value, ast.Name)) for y in body)
+                    table_write = any(isinstance(y, ast.Subscript) and isinstance(y.ctx, ast.Store) and isinstance(y.value, ast.Name) for y in body)
+                    if asks and table_read and table_write:
+                        obs.append(ctx.ob("SIB-FILTER", ["C08"], f, "predicate evaluated once per child via call_predicate", x, False,
+                                          f"`{norm(x)}`: {g.qualname} answers from a table it filled on an earlier call: nodes that share the key (clones) get the verdict "
+                                          "of the first one, although the predicate may decide by position"))
+                        return obs
     accs = find(f"$acc.append({li.target.id})", li)
     keepv = [n for n in iter_own(fi.node) if isinstance(n, ast.Return) and isinstance(n.value, ast.Name)]
     mats = [g for g in m.func("Node._add_filtered").nested if not g.param_names()]
